@@ -271,6 +271,9 @@ func legacyText(r *ev.Run, c *ev.Case) {
 	keys := []string{"IFVer", "req", "HardKey", "Touch2SSH", "IsFirefighter", "TouchlessSudoHosts", "TouchlessSudoTime", "SSHClientVersion", "x", "IfVer", "hardkey", "REQ"}
 	var toks []string
 	n := 1 + c.Rand.Intn(10)
+	if c.Rand.Intn(8) == 0 {
+		n = 20 + c.Rand.Intn(300) // a long line: nothing in the format bounds the number of tokens
+	}
 	for i := 0; i < n; i++ {
 		k := keys[c.Rand.Intn(len(keys))]
 		var v string
@@ -320,6 +323,9 @@ func legacyText(r *ev.Run, c *ev.Case) {
 		toks = append([]string{[]string{"null", "{}", "true", "0", `"x"`, "[]", `{"username":"u","hostname":"h","sshClientVersion":"8.1"}`, "-1.5e3"}[c.Rand.Intn(8)]}, toks...)
 	}
 	seps := []string{" ", "  ", " \t", "\t ", "   ", " \n "}
+	if c.Rand.Intn(8) == 0 {
+		seps = append(seps, strings.Repeat(" ", 20+c.Rand.Intn(80)), strings.Repeat(" ", 33)) // wide gaps
+	}
 	var sb strings.Builder
 	if c.Rand.Intn(3) == 0 {
 		sb.WriteString(seps[c.Rand.Intn(len(seps))])
